@@ -19,8 +19,9 @@ Theorem C11_0002 : forall c id dg, c_ext c = E0002 ->
 Proof. exact map_0002_correct. Qed.
 Print Assumptions C11_0002.
 
+(** (also for tupleSize = numberOfTuples = 0, a known finding until fix e1de1bb) *)
 Theorem C11_0003 : forall c id dg, c_ext c = E0003 -> cfg_ok c = true -> digest_ok c dg = true ->
-  ustr_wf id = true -> c11_0003_zero_tuples c = false ->
+  ustr_wf id = true ->
   refusal (Layout.map c id dg) = LayoutSpec.map c id dg.
 Proof. exact map_0003_correct. Qed.
 Print Assumptions C11_0003.
@@ -36,15 +37,17 @@ Theorem C11_0006 : forall c id dg, c_ext c = E0006 -> cfg_ok c = true ->
 Proof. exact map_0006_correct. Qed.
 Print Assumptions C11_0006.
 
+(** (also for ids with control characters, a known finding until fix 970818d) *)
 Theorem C11_0007 : forall c id dg, c_ext c = E0007 -> cfg_ok c = true ->
   ustr_wf id = true -> ustr_wf (c_delim c) = true ->
-  c11_casefold c id = false -> c11_0007_ctrl c id = false ->
+  c11_casefold c id = false ->
   refusal (Layout.map c id dg) = LayoutSpec.map c id dg.
 Proof. exact map_0007_correct. Qed.
 Print Assumptions C11_0007.
 
 (** all five at once: for every validated configuration and every id outside the known
-    classes the code returns the documented path, or refuses exactly the ids the
+    class (known_c11 = c11_casefold: 0006/0007 with a case mapping that changes UTF-8
+    lengths) the code returns the documented path, or refuses exactly the ids the
     documents cannot map *)
 Theorem C11_map_is_spec : forall c id dg,
   cfg_ok c = true -> inputs_ok c id dg = true -> known_c11 c id = false ->
@@ -120,7 +123,9 @@ Print Assumptions C11_strip_prefix.
 (** ** configurations: StorageLayout::new accepts exactly what the documents allow
     (extension name, tupleSize/numberOfTuples both zero or both non-zero, product <=
     digest length, bounds, non-empty delimiter, shortObjectRoot constraint, parameter
-    types and defaults) and reads the documented parameter values *)
+    types and defaults) and reads the documented parameter values.  known_c11_cfg =
+    0007 without delimiter / without config.json, or a JSON array; numbers above 32 and
+    shortObjectRoot with a fully used digest are covered since fixes d1aca14, a91c61b *)
 Theorem C11_config : forall dbg e r,
   raw_wf r = true -> cfg_determined e r = true -> known_c11_cfg e r = false ->
   new_agrees (new dbg e r) (LayoutSpec.parse e r).
@@ -138,12 +143,31 @@ Theorem C11_config_never_panics : forall dbg e r,
 Proof. exact new_never_panics. Qed.
 Print Assumptions C11_config_never_panics.
 
+(** for EVERY form of the configuration (also the array form and no config.json): new
+    never panics, debug and release arithmetic agree (the product of two numbers <= 32
+    cannot overflow), and an accepted 0003/0004 configuration obeys the documents' rules
+    on the numbers *)
+Theorem C11_config_total : forall dbg e r, new dbg e r <> Panic.
+Proof. exact new_total. Qed.
+Print Assumptions C11_config_total.
+
+Theorem C11_config_release_is_debug : forall e r, new false e r = new true e r.
+Proof. exact new_dbg_irrelevant. Qed.
+Print Assumptions C11_config_release_is_debug.
+
+Theorem C11_config_hashed_rules : forall dbg e r c, e = E0003 \/ e = E0004 -> new dbg e r = Ok c ->
+  c_ts c <= 32 /\ c_nt c <= 32 /\
+  tuple_rules (c_alg c) (c_ts c) (c_nt c) (match e with E0004 => c_short c | _ => false end) = true.
+Proof. exact accepted_hashed_rules. Qed.
+Print Assumptions C11_config_hashed_rules.
+
 (** an accepted configuration satisfies the hypothesis of the mapping theorems *)
 Theorem C11_accepted_config_is_ok : forall e r c, new true e r = Ok c -> cfg_ok c = true /\ c_ext c = e.
 Proof. exact new_ok_cfg_ok. Qed.
 Print Assumptions C11_accepted_config_is_ok.
 
-(** ** the excluded classes are genuine defects of the modelled code (known findings) *)
+(** ** the excluded classes are genuine defects of the modelled code (known findings
+    c11-casefold-index, c11-cfg-0007-defaults, c11-cfg-array) *)
 Theorem C11_known_casefold_kelvin_refuted :
   both (cfg6 (au (b "edu/"))) kelvin_id [] = (Ok (b "u/x"), Ok (b "x")) /\
   c11_casefold (cfg6 (au (b "edu/"))) kelvin_id = true /\ ustr_wf kelvin_id = true.
@@ -161,43 +185,6 @@ Theorem C11_known_casefold_sharp_s_panics :
 Proof. exact casefold_sharp_s_panics. Qed.
 Print Assumptions C11_known_casefold_sharp_s_panics.
 
-Theorem C11_known_0003_zero_tuples_refuted :
-  both (cfg3 Sha256 0 0) (au (b "object-01")) sha256_object_01 = (Ok sha256_object_01, Ok (b "object-01")) /\
-  c11_0003_zero_tuples (cfg3 Sha256 0 0) = true /\ cfg_ok (cfg3 Sha256 0 0) = true.
-Proof. exact zero_tuples_0003. Qed.
-Print Assumptions C11_known_0003_zero_tuples_refuted.
-
-Theorem C11_known_0007_control_chars_refuted :
-  both (cfg7 (au (b ":")) 3 3 true false) ctrl_id [] =
-    (Ok (bs [48; 48; 48; 47; 48; 48; 48; 47; 98; 1; 99; 47; 98; 1; 99]), Err) /\
-  c11_0007_ctrl (cfg7 (au (b ":")) 3 3 true false) ctrl_id = true.
-Proof. exact ctrl_0007. Qed.
-Print Assumptions C11_known_0007_control_chars_refuted.
-
-Theorem C11_known_cfg_bounds_refuted :
-  is_accepted (new true E0004 (obj JAbsent JAbsent (JNum 33) (JNum 1) JAbsent JAbsent JAbsent JAbsent)) = true /\
-  allowed E0004 (obj JAbsent JAbsent (JNum 33) (JNum 1) JAbsent JAbsent JAbsent JAbsent) = false /\
-  is_accepted (new true E0003 (obj JAbsent JAbsent (JNum 1) (JNum 64) JAbsent JAbsent JAbsent JAbsent)) = true /\
-  allowed E0003 (obj JAbsent JAbsent (JNum 1) (JNum 64) JAbsent JAbsent JAbsent JAbsent) = false /\
-  c11_cfg_bounds E0004 (obj JAbsent JAbsent (JNum 33) (JNum 1) JAbsent JAbsent JAbsent JAbsent) = true.
-Proof. exact cfg_bounds_accepted. Qed.
-Print Assumptions C11_known_cfg_bounds_refuted.
-
-Theorem C11_known_cfg_overflow_panics :
-  new true E0004 (obj JAbsent JAbsent (JNum 4294967296) (JNum 4294967296) JAbsent JAbsent JAbsent JAbsent) = Panic /\
-  is_accepted (new false E0004 (obj JAbsent JAbsent (JNum 4294967296) (JNum 4294967296) JAbsent JAbsent JAbsent JAbsent)) = true.
-Proof. exact cfg_overflow_panics. Qed.
-Print Assumptions C11_known_cfg_overflow_panics.
-
-Theorem C11_known_cfg_short_root_refuted :
-  is_accepted (new true E0004 (obj JAbsent JAbsent (JNum 4) (JNum 16) (JBool true) JAbsent JAbsent JAbsent)) = true /\
-  allowed E0004 (obj JAbsent JAbsent (JNum 4) (JNum 16) (JBool true) JAbsent JAbsent JAbsent) = false /\
-  c11_cfg_short_root E0004 (obj JAbsent JAbsent (JNum 4) (JNum 16) (JBool true) JAbsent JAbsent JAbsent) = true /\
-  Layout.map (cfg4 Sha256 4 16 true) (au (b "object-01")) sha256_object_01 =
-    Ok (b "3c0f/f424/0c1e/116d/ba14/c762/7f23/19b5/8aa3/d776/06d0/d90d/fc61/6160/8ac9/87d4/").
-Proof. exact cfg_short_root_accepted. Qed.
-Print Assumptions C11_known_cfg_short_root_refuted.
-
 Theorem C11_known_cfg_0007_defaults_refuted :
   new true E0007 RawNone = Err /\ allowed E0007 RawNone = true /\
   new true E0007 (obj (JStr (au (ext_name E0007))) JAbsent JAbsent JAbsent JAbsent JAbsent JAbsent JAbsent) = Err /\
@@ -210,6 +197,54 @@ Theorem C11_known_cfg_array_refuted :
   allowed E0004 (RawSeq [JStr (au (ext_name E0004)); JStr (au (b "md5")); JNum 2; JNum 2]) = false.
 Proof. exact cfg_array_accepted. Qed.
 Print Assumptions C11_known_cfg_array_refuted.
+
+(** ** the four repaired classes (regression examples): code model and documents agree on
+    the former witnesses, and the neighbouring allowed inputs are still accepted *)
+Example C11_fixed_0003_zero_tuples :
+  both (cfg3 Sha256 0 0) (au (b "object-01")) sha256_object_01 = (Ok (b "object-01"), Ok (b "object-01")) /\
+  both (cfg3 Sha256 0 0) horrible sha256_horrible =
+    (Ok (b "%2e%2ehor%2frib%3ale-%24id"), Ok (b "%2e%2ehor%2frib%3ale-%24id")) /\
+  both (cfg3 Sha256 0 0) long101 sha256_long101 =
+    (Ok (b "abcdefghijabcdefghijabcdefghijabcdefghijabcdefghijabcdefghijabcdefghijabcdefghijabcdefghijabcdefghij-5cc73e648fbcff136510e330871180922ddacf193b68fdeff855683a01464220"),
+     Ok (b "abcdefghijabcdefghijabcdefghijabcdefghijabcdefghijabcdefghijabcdefghijabcdefghijabcdefghijabcdefghij-5cc73e648fbcff136510e330871180922ddacf193b68fdeff855683a01464220")) /\
+  side (cfg3 Sha256 0 0) (au (b "object-01")) sha256_object_01 = (true, true, false).
+Proof. exact fixed_0003_zero_tuples. Qed.
+
+Example C11_fixed_0007_control_chars :
+  both (cfg7 (au (b ":")) 3 3 true false) ctrl_id [] = (Panic, Err) /\
+  both (cfg7 (au (b ":")) 3 3 true false) (au (bs [31])) [] = (Panic, Err) /\
+  both (cfg7 (au (b ":")) 3 3 true false) (au (bs [0; 58; 97])) [] = (Panic, Err) /\
+  both (cfg7 (au (b ":")) 2 2 true false) edge_id [] =
+    (Ok (bs [48; 48; 47; 32; 127; 47; 32; 127]), Ok (bs [48; 48; 47; 32; 127; 47; 32; 127])) /\
+  side (cfg7 (au (b ":")) 3 3 true false) ctrl_id sha256_object_01 = (true, true, false).
+Proof. exact fixed_0007_ctrl. Qed.
+
+Example C11_fixed_cfg_bounds :
+  new true E0004 (obj JAbsent JAbsent (JNum 33) (JNum 1) JAbsent JAbsent JAbsent JAbsent) = Err /\
+  allowed E0004 (obj JAbsent JAbsent (JNum 33) (JNum 1) JAbsent JAbsent JAbsent JAbsent) = false /\
+  new true E0003 (obj JAbsent JAbsent (JNum 1) (JNum 64) JAbsent JAbsent JAbsent JAbsent) = Err /\
+  allowed E0003 (obj JAbsent JAbsent (JNum 1) (JNum 64) JAbsent JAbsent JAbsent JAbsent) = false /\
+  new true E0004 (obj JAbsent JAbsent (JNum 4294967296) (JNum 4294967296) JAbsent JAbsent JAbsent JAbsent) = Err /\
+  new false E0004 (obj JAbsent JAbsent (JNum 4294967296) (JNum 4294967296) JAbsent JAbsent JAbsent JAbsent) = Err /\
+  new true E0003 (obj JAbsent JAbsent (JNum usize_max) (JNum usize_max) JAbsent JAbsent JAbsent JAbsent) = Err /\
+  new false E0003 (obj JAbsent JAbsent (JNum 0) (JNum usize_max) JAbsent JAbsent JAbsent JAbsent) = Err /\
+  is_accepted (new true E0004 (obj JAbsent (JStr (au (b "sha512"))) (JNum 32) (JNum 4) JAbsent JAbsent JAbsent JAbsent)) = true /\
+  allowed E0004 (obj JAbsent (JStr (au (b "sha512"))) (JNum 32) (JNum 4) JAbsent JAbsent JAbsent JAbsent) = true /\
+  is_accepted (new true E0003 (obj JAbsent (JStr (au (b "md5"))) (JNum 1) (JNum 32) JAbsent JAbsent JAbsent JAbsent)) = true.
+Proof. exact fixed_cfg_bounds. Qed.
+
+Example C11_fixed_cfg_short_root :
+  new true E0004 (obj JAbsent JAbsent (JNum 4) (JNum 16) (JBool true) JAbsent JAbsent JAbsent) = Err /\
+  allowed E0004 (obj JAbsent JAbsent (JNum 4) (JNum 16) (JBool true) JAbsent JAbsent JAbsent) = false /\
+  is_accepted (new true E0004 (obj JAbsent JAbsent (JNum 4) (JNum 16) (JBool false) JAbsent JAbsent JAbsent)) = true /\
+  allowed E0004 (obj JAbsent JAbsent (JNum 4) (JNum 16) (JBool false) JAbsent JAbsent JAbsent) = true /\
+  is_accepted (new true E0004 (obj JAbsent JAbsent (JNum 7) (JNum 9) (JBool true) JAbsent JAbsent JAbsent)) = true /\
+  allowed E0004 (obj JAbsent JAbsent (JNum 7) (JNum 9) (JBool true) JAbsent JAbsent JAbsent) = true /\
+  both (cfg4 Sha256 7 9 true) (au (b "object-01")) sha256_object_01 =
+    (Ok (b "3c0ff42/40c1e11/6dba14c/7627f23/19b58aa/3d77606/d0d90df/c616160/8ac987d/4"),
+     Ok (b "3c0ff42/40c1e11/6dba14c/7627f23/19b58aa/3d77606/d0d90df/c616160/8ac987d/4")) /\
+  new true E0004 (RawSeq [JStr (au (ext_name E0004)); JStr (au (b "md5")); JNum 2; JNum 16; JBool true]) = Err.
+Proof. exact fixed_cfg_short_root. Qed.
 
 (** ** non-vacuity: the hypotheses are met by the documents' own examples, on which the
     code model and the transcription both give the documented path *)
